@@ -305,7 +305,7 @@ PLANS = {
         targets=['imperative.expr.Var.subst', 'imperative.expr.ArrayElt.subst', 'imperative.expr.Field.subst',
                  'imperative.expr.Const.subst', 'imperative.expr.Op.subst', 'imperative.expr.Fun.subst',
                  'imperative.expr.ITE.subst', 'lemma:no_forall_nth', 'lemma:idents_nth'],
-        bounded=['bounded.c20_programs.run'], level='proof', uf_mul=True, native_per_fn={'quick': 0, 'thorough': 0},
+        bounded=['bounded.c20_programs.run'], level='proof', uf_mul=True, no_smt2=True, native_per_fn={'quick': 0, 'thorough': 0},
         assumptions=COMMON_ASSUMPTIONS + [
             "deductive part: the semantic substitution lemma (evaluating e.subst(inst) in a state = evaluating e in "
             "the state updated by the assignment) for every override of Expr.subst except Forall, for syntactically "
